@@ -95,7 +95,7 @@ func (p *untypedParamBinder) typeForSchema(tpe, format string, items *spec.Items
 		switch format {
 		case "float":
 			return reflect.TypeOf(float32(0))
-		case "double":
+		default: // "double", or a number declared without format
 			return reflect.TypeOf(float64(0))
 		}
 
